@@ -16,9 +16,9 @@ from typing import Any, Dict, List, Optional
 
 from ..core import PY, REPO, VERIF, Ctx, parallel_map
 
-RULE = ("3 dataset classes x file lists (1-4 files, str/Path/mixed, single value, same/different directories, duplicates, blanks in names, missing files, empty list) "
-        "x image/tag x docker metadata {none, one, two} x output directory {default, given} x container outcomes {ok, DockerException after each k-th chunk, no result file}; "
-        "each in a fresh interpreter and in 2-3 step sequences; distinct = distinct (class, file-list class, metadata, outdir, outcome); non-trivial = reaches the constructor with at least one file")
+RULE = ("3 dataset classes x file lists (1-4 files, str/Path/mixed, single value, same/different directories, duplicates, blanks in names, symbolic links inside / out of the directory, missing files, empty list) "
+        "x image/tag x docker metadata {none, one, two, A-B-A} x output directory {default, given} x container outcomes {ok, DockerException after each k-th chunk, no result file}; "
+        "each in a fresh interpreter and in 2-3 step sequences (new dataset per step, and ONE dataset object serving several queries); distinct = distinct (class, file-list class, metadata, outdir, outcome); non-trivial = reaches the constructor with at least one file")
 ASSUME = ["vf/stubs/pow/python_on_whales stands for the docker client: it sees the host only through the requested volume mounts",
           "queries are run through the public func_adl API (ds.Select(...).value())"]
 
@@ -39,7 +39,7 @@ def _dataset_class(cls):
     return CMSRun2miniAODDataset
 
 
-def execute_step(step: Dict[str, Any], base: Path, idx: int, mkdtemps: List[str]) -> Dict[str, Any]:
+def execute_step(step: Dict[str, Any], base: Path, idx: int, mkdtemps: List[str], state: Optional[Dict[str, Any]] = None) -> Dict[str, Any]:
     import python_on_whales as pow_
 
     obs: Dict[str, Any] = {"ctor_exc": None, "run_exc": None, "returned": None, "calls": [], "containers": 0}
@@ -49,7 +49,12 @@ def execute_step(step: Dict[str, Any], base: Path, idx: int, mkdtemps: List[str]
     files = []
     for f in step["files"]:
         p = dirs[f["dir"]] / f["name"]
-        if f.get("exists", True):
+        if f.get("link_to"):
+            t = dirs[f["link_to"]["dir"]] / f["link_to"]["name"]
+            t.write_text("data")
+            if not p.is_symlink():
+                p.symlink_to(t)
+        elif f.get("exists", True):
             p.write_text("data")
         files.append(str(p) if f.get("as", "str") == "str" else p)
     arg: Any = files
@@ -70,11 +75,17 @@ def execute_step(step: Dict[str, Any], base: Path, idx: int, mkdtemps: List[str]
     pow_.SCRIPT.update({"outcome": "ok", "k": 0, "nchunks": 3, "result_name": "ANALYSIS.root"})
     pow_.SCRIPT.update(step["outcome"])
     n_before = len(mkdtemps)
-    try:
-        ds = _dataset_class(step["cls"])(arg, **kw)
-    except BaseException as e:  # noqa: B036
-        obs["ctor_exc"] = {"type": type(e).__name__, "msg": str(e)[:300]}
-        return obs
+    state = state if state is not None else {}
+    if step.get("reuse_ds") and "ds" in state:
+        # the SAME dataset object serves a further query (ds = xAODDataset(files); ds.Select(..); ds.Select(..))
+        ds, files = state["ds"], state["files"]
+    else:
+        try:
+            ds = _dataset_class(step["cls"])(arg, **kw)
+        except BaseException as e:  # noqa: B036
+            obs["ctor_exc"] = {"type": type(e).__name__, "msg": str(e)[:300]}
+            return obs
+        state["ds"], state["files"] = ds, files
     try:
         q = ds
         for im in step.get("docker_md", []):
@@ -104,8 +115,9 @@ def worker_main(casefile: str):
             mkdtemps.append(args[0])
     sys.addaudithook(hook)
     out = []
+    state: Dict[str, Any] = {}
     for i, step in enumerate(case["steps"]):
-        out.append(execute_step(step, base, i, mkdtemps))
+        out.append(execute_step(step, base, i, mkdtemps, state))
     Path(casefile + ".out").write_text(json.dumps(out, default=str))
 
 
@@ -123,6 +135,9 @@ def file_lists(R) -> List[Dict[str, Any]]:
     R.shuffle(perm)
     out.append(("many_shuffled", [{"dir": 0, "name": names[i], "as": "path"} for i in perm], False, "ok"))
     out.append(("duplicate", [{"dir": 0, "name": "a.root"}, {"dir": 0, "name": "a.root"}], False, "ok"))
+    out.append(("symlink_to_other_dir", [{"dir": 0, "name": "a.root", "link_to": {"dir": 1, "name": "target.root"}}], False, "ok"))
+    out.append(("plain_and_symlink", [{"dir": 0, "name": "a.root"}, {"dir": 0, "name": "l.root", "link_to": {"dir": 1, "name": "target.root"}}], False, "ok"))
+    out.append(("symlink_same_dir", [{"dir": 0, "name": "l.root", "link_to": {"dir": 0, "name": "target.root"}}, {"dir": 0, "name": "b.root"}], False, "ok"))
     out.append(("blank_in_name", [{"dir": 0, "name": "c d.root"}], False, "ok"))
     out.append(("different_dirs", [{"dir": 0, "name": "a.root"}, {"dir": 1, "name": "b.root"}], False, "different_dirs"))
     out.append(("different_dirs_late", [{"dir": 0, "name": "a.root"}, {"dir": 0, "name": "b.root"}, {"dir": 2, "name": "e.root"}], False, "different_dirs"))
@@ -140,7 +155,7 @@ def make_cases(ctx: Ctx) -> List[Dict[str, Any]]:
         fls = file_lists(R)
         for label, files, single, fexp in fls:
             for oc in (outcomes if fexp == "ok" and label in ("one_str", "many_same_dir") else [outcomes[0], outcomes[2], outcomes[5]]):
-                for md in ([], ["my/image:1.0"], ["first/image:1", "second/image:2"]):
+                for md in ([], ["my/image:1.0"], ["first/image:1", "second/image:2"], ["first/image:1", "second/image:2", "first/image:1"]):
                     if md and label not in ("one_str", "many_same_dir", "different_dirs"):
                         continue
                     for outdir in ("none", "given"):
@@ -157,7 +172,13 @@ def make_cases(ctx: Ctx) -> List[Dict[str, Any]]:
         ok1 = {"cls": cls, "files": fls[0][1], "single": False, "label": "one_str", "fexp": "ok", "image": None, "docker_md": ["seq/image:7"], "outdir": "given", "outcome": {"outcome": "ok"}}
         ok2 = dict(ok1, docker_md=[], image="other/img:2", outdir="none")
         bad = dict(ok1, docker_md=[], outcome={"outcome": "fail_after", "k": 1, "nchunks": 3})
-        dd = dict(ok1, files=fls[7][1], label="different_dirs", fexp="different_dirs", docker_md=[])
+        dd = dict(ok1, files=next(f for f in fls if f[0] == "different_dirs")[1], label="different_dirs", fexp="different_dirs", docker_md=[])
+        # one dataset object, several queries: the docker metadata / failure of one query must not stick to the dataset
+        same = dict(ok1, image="ctor/img:3", outdir="none")
+        for seq in ([same, dict(same, docker_md=[], reuse_ds=True)], [dict(same, docker_md=[]), dict(same, reuse_ds=True), dict(same, docker_md=[], reuse_ds=True)],
+                    [dict(same, outcome={"outcome": "fail_after", "k": 1, "nchunks": 3}), dict(same, docker_md=[], reuse_ds=True)],
+                    [dict(same, image=None), dict(same, image=None, docker_md=["x/y:1", "z/w:2"], reuse_ds=True), dict(same, image=None, docker_md=[], reuse_ds=True)]):
+            cases.append({"steps": [dict(s) for s in seq]})
         for seq in ([ok1, ok2], [bad, ok2], [dd, ok2, ok1], [ok2, bad, ok1]):
             cases.append({"steps": [dict(s) for s in seq]})
             other = "cms_aod" if cls != "cms_aod" else "atlas"
@@ -213,7 +234,8 @@ def judge_step(step: Dict[str, Any], obs: Dict[str, Any]) -> Optional[str]:
         return f"{len(calls)} containers started for one query (run_exc={obs['run_exc']})"
     c = calls[0]
     want_image = step["docker_md"][-1] if step["docker_md"] else (step["image"] or DEFAULT_IMAGE[step["cls"]])
-    if step["docker_md"] and c["image"] not in step["docker_md"]:
+    # several docker blocks: the property does not say which one wins; a positional rule (first or last) is accepted
+    if step["docker_md"] and c["image"] not in (step["docker_md"][0], step["docker_md"][-1]):
         return f"docker metadata names {step['docker_md']} but image {c['image']!r} was run"
     if not step["docker_md"] and c["image"] != want_image:
         return f"image {c['image']!r} was run, expected {want_image!r}"
@@ -235,6 +257,9 @@ def judge_step(step: Dict[str, Any], obs: Dict[str, Any]) -> Optional[str]:
     want_list = "".join(f"/data/{Path(f).name}\n" for f in obs["files"])
     if c["seen"].get("filelist") != want_list:
         return f"filelist.txt seen by the container {c['seen'].get('filelist')!r}, expected {want_list!r}"
+    missing = [Path(f).name for f in obs["files"] if Path(f).name not in (c["seen"].get("data_files") or [])]
+    if missing:
+        return f"listed input {missing} is not visible in the directory mounted at /data ({vols['/data'][0]}: {c['seen'].get('data_files')})"
     if not c["seen"].get("main_script_executable"):
         return "entry script missing or not executable inside /scripts"
     if must_fail:
